@@ -1,2 +1,2 @@
 import CsVerif.Driver.C06
-def main : IO Unit := Proto.run C06.step
+def main : IO Unit := Proto.run C06.top
